@@ -123,6 +123,87 @@ func runORD20(p *Prog, r *RuleRun) {
 	eng := newOrdEngine(p, spec)
 	eng.RunRoot(open, nil)
 	finishEngine(r, eng)
+	// The cleanup must see what was opened *by the time Open fails*: arguments of a deferred call are evaluated
+	// when the defer statement runs, so a deferred cleanup that is handed the segment map (or any variable that
+	// Open assigns again later) works on a snapshot taken before anything was opened.
+	sameCell := func(a, b ssa.Value) bool {
+		if a == b {
+			return true
+		}
+		fa, ok1 := a.(*ssa.FieldAddr)
+		fb, ok2 := b.(*ssa.FieldAddr)
+		return ok1 && ok2 && fa.Field == fb.Field && fa.X == fb.X
+	}
+	closes := func(fn *ssa.Function) bool {
+		return fn != nil && p.reaches(fn, func(ci ssa.CallInstruction) bool {
+			cc := ci.Common()
+			return cc.IsInvoke() && cc.Method.Name() == "Close"
+		})
+	}
+	nDefer := 0
+	for _, b := range open.Blocks {
+		for i, ins := range b.Instrs {
+			d, ok := ins.(*ssa.Defer)
+			if !ok {
+				continue
+			}
+			var callee *ssa.Function
+			if mc, ok := d.Call.Value.(*ssa.MakeClosure); ok {
+				callee = mc.Fn.(*ssa.Function)
+			} else {
+				callee = d.Call.StaticCallee()
+			}
+			if !closes(callee) {
+				continue
+			}
+			nDefer++
+			key := fmt.Sprintf("wal.Open:deferred-cleanup#%d", nDefer)
+			stale := ""
+			for _, a := range d.Call.Args {
+				ld, ok := a.(*ssa.UnOp)
+				if !ok || ld.Op != token.MUL {
+					continue
+				}
+				// is the loaded variable assigned again after the defer statement?
+				later := map[*ssa.BasicBlock]bool{}
+				var walk func(x *ssa.BasicBlock)
+				walk = func(x *ssa.BasicBlock) {
+					if later[x] {
+						return
+					}
+					later[x] = true
+					for _, s2 := range x.Succs {
+						walk(s2)
+					}
+				}
+				for _, s2 := range b.Succs {
+					walk(s2)
+				}
+				for _, b2 := range open.Blocks {
+					for j, i2 := range b2.Instrs {
+						st, ok := i2.(*ssa.Store)
+						if !ok || !sameCell(st.Addr, ld.X) {
+							continue
+						}
+						if later[b2] || (b2 == b && j > i) {
+							what := a.Name()
+							if fv := fieldOfAddr(ld.X); fv != nil {
+								what = "field " + fv.Name()
+							} else if al, ok := ld.X.(*ssa.Alloc); ok && al.Comment != "" {
+								what = "variable " + al.Comment
+							}
+							stale = fmt.Sprintf("%s is read when the defer statement executes but assigned again at %s", what, posOf(p, st))
+						}
+					}
+				}
+			}
+			r.Check(stale == "", key, posOf(p, d), "the deferred cleanup reads Open's variables when it runs, not when it was registered",
+				"the cleanup deferred by Open is handed a snapshot taken at the defer statement ("+stale+"): segments opened afterwards are not in it and stay open when Open fails")
+		}
+	}
+	if nDefer == 0 {
+		r.Fail("wal.Open:deferred-cleanup", p.Position(open.Pos()), "Open registers no deferred cleanup that closes the segments it opened")
+	}
 }
 
 // ---------------------------------------------------------------- ORD-21
